@@ -14,7 +14,7 @@ from mc.kernel import exc_sig
 PROPERTY = "C16"
 RULE = ("unit = (transform family, dimension); paths = one call per point set and variant; non-trivial = points that are not the origin; "
         "distinct by (dimension, variant, point)")
-ASSUMPTIONS = ["dimensions 2..12 (statement's range)", "tolerance 1e-12 relative for round trips"]
+ASSUMPTIONS = ["dimensions 2..12 (statement's range)", "round-trip tolerance 1e-12 (barycentric), 1e-11 relative (n-sphere; 3e-8 for points within 1e-6 of a coordinate axis/plane, where an inverse-cosine based conversion is ill-conditioned)"]
 BOUNDS = {"quick": "d in 2..12; {-1,0,1}^d exhaustively for d<=5 (quick) ", "thorough": "{-1,0,1}^d exhaustively for d<=8, {-2..2}^d for d<=4"}
 TECHNIQUE = "exhaustive lattice of points (axes, planes, origin, signs, zero tails) in every dimension 2..12, closed-form oracle"
 LEVEL_TEXT = "every lattice point of every dimension is converted by the real functions; unit edges, affinity, inverse round trips, L1 sums, scale invariance, radius and angle ranges are decided in closed form"
@@ -73,7 +73,27 @@ def _points(d, tier, seed, signed=True):
     G = np.round(rng.uniform(-3, 3, (12, d)) * 16) / 16 if signed else np.round(rng.uniform(0.0, 3, (12, d)) * 16) / 16
     pts += list(G)
     pts.append(g)
+    if signed:
+        # small absolute magnitudes (only the direction and the norm matter) and points NEAR but not ON an axis / plane
+        pts += list(G[:6] * 1e-9) + list(G[6:10] * 1e-12) + [g * 1e-10]
+        for k in range(1, d):
+            a = g.copy()
+            a[k:] = 1e-9 * np.where(np.arange(d - k) % 2 == 0, 1.0, -1.0)
+            pts.append(a)
     return np.array(pts)
+
+
+def _rt_tol(x):
+    """relative round-trip tolerance.  Angles obtained through an inverse cosine lose accuracy near 0 and pi: a component
+    that is tiny relative to the norm of its tail is only recoverable to about sqrt(machine eps) of that tail.  Such
+    near-axis points are held to 3e-8 (2 sqrt(eps)); well-conditioned points to 1e-11."""
+    x = np.asarray(x, dtype=float)
+    worst = 1.0
+    for i in range(len(x) - 1):
+        t = np.linalg.norm(x[i:])
+        if t > 0:
+            worst = min(worst, 1.0 - abs(x[i]) / t)
+    return 3e-8 if worst < 1e-6 else 1e-11
 
 
 def run_unit(unit, rec):
@@ -180,13 +200,13 @@ def run_unit(unit, rec):
                 bad = None
                 if not np.all(np.isfinite(y)):
                     bad = ("g", "non-finite spherical coordinates")
-                elif abs(y[0] - nrm[i]) > 1e-12 * (1 + nrm[i]):
+                elif abs(y[0] - nrm[i]) > 1e-12 * nrm[i] + 1e-300:
                     bad = ("f", "radius is not the Euclidean norm")
                 elif np.any(y[1:-1] < -1e-15) or np.any(y[1:-1] > np.pi + 1e-15):
                     bad = ("g", "a polar angle is outside [0, pi]")
                 elif y[-1] < -1e-15 or y[-1] > 2 * np.pi + 1e-15:
                     bad = ("g", "the azimuth is outside [0, 2 pi]")
-                elif np.max(np.abs(Xr[i] - x)) > 1e-12 * (1 + nrm[i]):
+                elif np.max(np.abs(Xr[i] - x)) > _rt_tol(x) * nrm[i] + 1e-300:
                     bad = ("h", "converting back does not recover the point (max dev %.3g)" % np.max(np.abs(Xr[i] - x)))
                 rec.outcome("sphere-%s/%s" % (pc, "ok" if bad is None else "bad"))
                 if bad:
